@@ -13,7 +13,7 @@ use std::sync::{Arc, Mutex as StdMutex};
 #[cfg(not(repe_verif))]
 use tokio::net::TcpStream;
 use tokio::sync::mpsc;
-use tokio::sync::{Mutex, oneshot};
+use tokio::sync::{Mutex, oneshot, watch};
 use tokio::task::JoinError;
 use tokio::time::{Duration, timeout};
 use tokio_tungstenite::tungstenite::{self, Message as WsMessage};
@@ -60,6 +60,11 @@ struct WebSocketClientInner {
     /// `futures_channel` sender; that copy lives in `crate::notify_slot`,
     /// where the shared rules are unit-tested. Keep the two in step.
     notify_tx: StdMutex<Option<mpsc::UnboundedSender<Message>>>,
+    /// Flipped to `true` by the response loop once the connection has failed.
+    /// Request writes race against it, so a send that is blocked on a peer
+    /// that stopped reading (or queued behind such a send on the writer lock)
+    /// ends with an error instead of outwaiting a connection already known dead.
+    failed: watch::Sender<bool>,
 }
 
 enum PendingDispatch {
@@ -165,6 +170,7 @@ impl WebSocketClient {
             pending: StdMutex::new(HashMap::new()),
             next_id: AtomicU64::new(1),
             notify_tx: StdMutex::new(None),
+            failed: watch::channel(false).0,
         });
 
         spawn_response_loop(reader, Arc::downgrade(&inner));
@@ -605,12 +611,18 @@ impl WebSocketClient {
         // connection, so without this the caller loses the socket and never
         // learns why.
         self.inner.limits.check_outbound(bytes.len())?;
-        let mut writer = self.inner.writer.lock().await;
-        writer
-            .send(WsMessage::Binary(bytes))
-            .await
-            .map_err(websocket_transport_error)?;
-        Ok(())
+        let mut failed = self.inner.failed.subscribe();
+        tokio::select! {
+            biased;
+            _ = failed.wait_for(|failed| *failed) => Err(connection_failed_error()),
+            result = async {
+                let mut writer = self.inner.writer.lock().await;
+                writer
+                    .send(WsMessage::Binary(bytes))
+                    .await
+                    .map_err(websocket_transport_error)
+            } => result,
+        }
     }
 
     fn validate_response(expected_id: u64, resp: Message) -> Result<Message, RepeError> {
@@ -854,7 +866,11 @@ async fn fail_all_pending(inner: &std::sync::Weak<WebSocketClientInner>, err: Re
     // The subscriber should not wait on it to learn the connection is gone.
     take_notify_sender(&inner_ref);
 
-    let _ = close_writer(&inner_ref).await;
+    // Request waiters come ahead of `close_writer` for the same reason: a send
+    // may be blocked on a peer that stopped reading, holding the writer lock.
+    // Marking the connection failed first ends that send (and any request
+    // queued behind it) with an error, which frees the lock.
+    inner_ref.failed.send_replace(true);
 
     let waiters = {
         let mut pending = lock_pending_map(&inner_ref.pending);
@@ -864,6 +880,8 @@ async fn fail_all_pending(inner: &std::sync::Weak<WebSocketClientInner>, err: Re
     for (request_id, sender) in waiters {
         let _ = sender.send(Err(clone_fatal_error_for_waiter(&err, request_id)));
     }
+
+    let _ = close_writer(&inner_ref).await;
 }
 
 /// Empty the notify slot, dropping the sender *after* the mutex guard is
@@ -887,6 +905,13 @@ async fn close_writer(inner: &Arc<WebSocketClientInner>) -> Result<(), RepeError
     let mut writer = inner.writer.lock().await;
     let _ = writer.send(WsMessage::Close(None)).await;
     writer.close().await.map_err(websocket_transport_error)
+}
+
+fn connection_failed_error() -> RepeError {
+    RepeError::Io(std::io::Error::new(
+        ErrorKind::BrokenPipe,
+        "connection failed: the response loop has ended",
+    ))
 }
 
 fn clone_fatal_error_for_waiter(err: &RepeError, request_id: u64) -> RepeError {
